@@ -307,6 +307,7 @@ func checkC18(c *Ctx) {
 
 	// ---- no narrowing of fed keys (K3) — shared with C02
 	checkNoNarrowing(c, "C18.no-narrowing")
+	checkC18StopRecord(c)
 }
 
 // checkNoNarrowing: no lossy rune→byte conversion of keys taken from Keys.macroKeys.
